@@ -100,9 +100,7 @@ Definition init : sess := (init_frame, []).
 
 Inductive err :=
 | EUndefinedSort | ESortAlreadyBound | EFunctionBoundAtSort | EPresortNotFound | EBadPresortArgs
-| EDupFunction            (* raised AFTER the new signature replaced the old one *)
-| ECtorOutputNotSort      (* raised AFTER the signature was inserted *)
-| EBadMerge               (* raised AFTER the signature was inserted *)
+| EDupFunction | ECtorOutputNotSort | EBadMerge   (* since 473a35e: raised BEFORE the signature is recorded *)
 | EShadowing              (* raised AFTER typecheck_program succeeded *)
 | ELaterPart (e : err)    (* a later part of a compound declaration failed; earlier parts stay *)
 | EUnbound | EUnboundFunction | EArity | EMismatch | ENeedsType | EAlreadyDefined
@@ -416,26 +414,26 @@ Definition tc_sort (F : frame) (n : name) (k : skind) (pre : option (presort * l
 Definition is_eq_kind (k : option skind) : bool :=
   match k with Some KEq | Some KRel => true | _ => false end.
 
-(** `typecheck_function` (typechecking.rs:762-831): the signature is inserted — REPLACING an
-    existing one — before the duplicate check reports, before the constructor-output check and
-    before the merge expression is typechecked. *)
+(** `typecheck_function` (typechecking.rs:762-833, after repository commit 473a35e "validate a
+    function's merge expression before recording its signature"): every check — duplicate,
+    constructor output, merge expression (typechecked WITHOUT the function being declared) —
+    precedes the insertion of the signature, so a rejected function declaration leaves [F] as is. *)
 Definition tc_function (F : frame) (n : name) (ins : list name) (out : name) (ctor : bool)
            (merge : option expr) : frame * option err :=
   if has (sorts F) n then (F, Some ESortAlreadyBound)
   else if negb (all_sorts_defined F ins && has (sorts F) out) then (F, Some EUndefinedSort)
+  else if has (funcs F) n then (F, Some EDupFunction)
+  else if ctor && negb (is_eq_kind (lookup (sorts F) out)) then (F, Some ECtorOutputNotSort)
   else
     let F' := with_funcs F (set_assoc (funcs F) n {| f_ctor := ctor; f_ins := ins; f_out := out |}) in
-    if has (funcs F) n then (F', Some EDupFunction)
-    else if ctor && negb (is_eq_kind (lookup (sorts F) out)) then (F', Some ECtorOutputNotSort)
-    else
-      match merge with
-      | None => (F', None)
-      | Some m =>
-          match tc F' false m None [(v_old, out); (v_new, out)] with
-          | inl _ => (F', Some EBadMerge)
-          | inr _ => (F', None)
-          end
-      end.
+    match merge with
+    | None => (F', None)
+    | Some m =>
+        match tc F false m None [(v_old, out); (v_new, out)] with
+        | inl _ => (F, Some EBadMerge)
+        | inr _ => (F', None)
+        end
+    end.
 
 Definition tc_ncmd (F : frame) (c : ncmd) : frame * option err :=
   match c with
